@@ -1051,17 +1051,21 @@ func samePkgScope(fn *ssa.Function, depth int) []*ssa.Function {
 		for _, g := range append([]*ssa.Function{}, scope...) {
 			for _, h := range withAnons(g) {
 				for _, s := range sitesOf(h) {
-					if s.Callee == nil || len(s.Callee.Blocks) == 0 || pkgRelOf(s.Callee) != pkgRelOf(fn) {
+					cal := s.Callee
+					if cal != nil && len(cal.Blocks) == 0 && cal.Origin() != nil {
+						cal = cal.Origin() // an instantiation without a body of its own: the generic body
+					}
+					if cal == nil || len(cal.Blocks) == 0 || pkgRelOf(cal) != pkgRelOf(fn) {
 						continue
 					}
 					dup := false
 					for _, x := range scope {
-						if x == s.Callee {
+						if x == cal {
 							dup = true
 						}
 					}
 					if !dup {
-						scope = append(scope, s.Callee)
+						scope = append(scope, cal)
 					}
 				}
 			}
